@@ -151,6 +151,8 @@ def gen_case(rng, params, idx):
                 m["mid"] = i
     gen.strict_first(rng, methods, 0.15)
     spec = {"hier": hier, "methods": methods, "npos": npos, "exh": False, "callseed": rng.randrange(1 << 30)}
+    if rng.random() < 0.3:
+        spec["bystander"] = rng.choice(["unused", "used"])
     if len(methods) >= 2 and rng.random() < 0.3:
         # the same method set, assembled through a variant / two mixins / a linkback copy whose parent grows later
         spec["mode"] = rng.choice(["variant", "mixin", "linkback"])
@@ -189,6 +191,20 @@ def check_case(spec, res):
     env = T.Env(spec["hier"])
     try:
         prog = Program(spec, env=env, tag="c02")
+        if spec.get("bystander"):
+            # history: a method of another arity was registered after all the others and unregistered again (the
+            # method set is what it would have been without it)
+            from ..methods import make_method
+            bfn, bfile = make_method({"mid": 900, "pos": [{"n": f"z{j}", "t": "object", "po": True} for j in range(6)]}, env, prog.vf,
+                                     ["return ('m', 900)"], tag="c02", shared_ns=prog.ns)
+            prog.files.append(bfile)
+            tgt = getattr(prog, "base", None) if spec.get("mode") == "linkback" else prog.ov
+            (tgt or prog.ov).register(bfn)
+            if spec["bystander"] == "used":
+                prog.call(next(iter(_calls(spec, env))))
+            (tgt or prog.ov).unregister(bfn)
+            prog.bind()
+            res.count("programs_with_removed_bystander")
         if spec.get("mode") != "linkback":      # a linkback copy must have followed its parent by itself
             prog.ov.compile()
     except Exception as e:  # noqa: BLE001
